@@ -108,22 +108,20 @@ def evaluate(ctx, cases):
         # the pointer is handed over in each of the ways a caller would: the object, its text, a dict operation with its text
         for form in ("pointer-object", "pointer-text", "dict-with-text"):
             target = ptr if form == "pointer-object" else str(ptr)
-            if form != "pointer-object" and "\\" in target:
-                ctx.count("text-form-with-backslash-skipped")   # escape decoding is on by default: pointer text with a backslash is outside (C04)
-                continue
+            noesc = form != "pointer-object" and "\\" in target     # escape decoding must be off for pointer text with a backslash (C04)
             if form == "dict-with-text":
                 op = {"op": kind, "path": target}
                 if kind == "test":
                     op["value"] = copy.deepcopy(obj)
                 elif kind == "replace":
                     op["value"] = {"new": True}
-                built = core.outcome(lambda: JSONPatch([op]))
+                built = core.outcome(lambda: JSONPatch([op], unicode_escape=not noesc))
                 if "err" in built:
                     ctx.violation("a patch operation addressed by the text of a match's pointer must build", {**where, "form": form}, built["err"], "a patch")
                     continue
                 p = built["ok"]
             else:
-                p = JSONPatch()
+                p = JSONPatch(unicode_escape=not noesc)
                 if kind == "test":
                     p.test(target, copy.deepcopy(obj))
                 elif kind == "replace":
